@@ -1,4 +1,5 @@
 import Proofs.FillPackets
+import Proofs.Tie.Encode
 import Proofs.RenderInv
 import Mq.Stream
 /-!
